@@ -11,15 +11,18 @@ import (
 
 func init() { register("C05", c05) }
 
-// lifecycleRoles locates the four functions that carry the stage order.
+// lifecycleRoles locates the functions that carry the stage order, by what they do and by the life-cycle events
+// their call sites can trigger (never by name, so extracting helpers does not move a role).
 type lifecycleRoles struct {
-	ev          *Events
-	exposer     *ssa.Function // invokes AddSingletonFactory
-	populator   *ssa.Function // calls Property.Inject
-	initializer *ssa.Function // invokes AfterPropertiesSet / Init
-	initFn      *ssa.Function // in-scope caller of the initializer
-	accessor    *ssa.Function
-	creator     *ssa.Function // literal handed to GetSingletonOrCreateByFactory
+	ev        *Events
+	exposer   *ssa.Function   // invokes AddSingletonFactory
+	populator *ssa.Function   // callee of the exposer's site reaching PROPS + INJECT
+	initFn    *ssa.Function   // callee of the exposer's site reaching BEFORE_INIT + AFTER_INIT
+	injectors []*ssa.Function // functions calling Property.Inject (the populator or a helper of it)
+	accessor  *ssa.Function
+	creator   *ssa.Function // literal handed to GetSingletonOrCreateByFactory
+	popSite   *ssa.Call
+	initSite  *ssa.Call
 }
 
 func one(r *core.Report, rule, what string, fs []*ssa.Function) *ssa.Function {
@@ -34,11 +37,10 @@ func findLifecycle(c *core.Ctx, r *core.Report, rule string) *lifecycleRoles {
 	ro := c.Roles()
 	l := &lifecycleRoles{ev: newEvents(c)}
 	l.exposer = one(r, rule, "EarlyExposer (invokes AddSingletonFactory)", ro.EarlyExposers())
-	l.populator = one(r, rule, "Populator (calls Property.Inject)", ro.Populators())
-	l.initializer = one(r, rule, "Initializer (invokes AfterPropertiesSet/Init)", ro.Initializers())
 	l.accessor = one(r, rule, "CacheAccessor (invokes GetSingletonOrCreateByFactory)", ro.CacheAccessors())
-	if l.initializer != nil {
-		l.initFn = one(r, rule, "InitFn (caller of the Initializer)", c.Callers(l.initializer))
+	l.injectors = ro.Populators()
+	if len(l.injectors) == 0 {
+		r.Undecided(rule, "role:Injector", "", "no in-scope function calls Property.Inject")
 	}
 	if l.accessor != nil {
 		l.creator = ro.CreatorClosure(l.accessor)
@@ -46,7 +48,27 @@ func findLifecycle(c *core.Ctx, r *core.Report, rule string) *lifecycleRoles {
 			r.Undecided(rule, "role:Creator", c.FnPos(l.accessor), "the factory handed to GetSingletonOrCreateByFactory is not a function literal")
 		}
 	}
-	if l.exposer == nil || l.populator == nil || l.initializer == nil || l.initFn == nil || l.accessor == nil || l.creator == nil {
+	if l.exposer != nil {
+		ex := l.exposer
+		l.popSite = oneSite(r, rule, "populate-site@"+core.FnName(ex), "site reaching PROPS+INJECT", l.ev.SitesReaching(ex, evProps, evInject), c, ex)
+		var initSites []*ssa.Call
+		for _, s := range l.ev.SitesReaching(ex, evBeforeInit) {
+			if l.ev.SiteReach(s).has(evAfterInit) {
+				initSites = append(initSites, s)
+			}
+		}
+		l.initSite = oneSite(r, rule, "init-site@"+core.FnName(ex), "site reaching BEFORE_INIT+AFTER_INIT", initSites, c, ex)
+		if l.popSite != nil {
+			l.populator = l.popSite.Common().StaticCallee()
+		}
+		if l.initSite != nil {
+			l.initFn = l.initSite.Common().StaticCallee()
+		}
+		if l.popSite != nil && l.populator == nil || l.initSite != nil && l.initFn == nil {
+			r.Undecided(rule, "role:Populator/InitFn", c.FnPos(ex), "population / initialization is not a static call from the creator")
+		}
+	}
+	if l.exposer == nil || l.populator == nil || l.initFn == nil || l.accessor == nil || l.creator == nil || len(l.injectors) == 0 {
 		return nil
 	}
 	return l
@@ -103,206 +125,126 @@ func assertOf(v ssa.Value) (*ssa.TypeAssert, ssa.Value) {
 
 func c05(c *core.Ctx, r *core.Report) {
 	ro := c.Roles()
-	r.Explanation = "C05 lifecycle: call sites are classified by the life-cycle events they can trigger (event reach summaries over in-scope static callees and literals; recursion into the cache accessor is the opaque event DEP) and stage order is decided by dominance between classified sites inside the four role functions: (R1) properties/configuration before dependency resolution before injection, populate before initialize, before-init -> init methods -> after-init each on the nil-error edge of the previous, AfterPropertiesSet before Init; (R2) every success return is dominated by the mandatory stages; (R3) the init callbacks are conditional only on their own type assertion and earlier error tests; (R4) each stage is a single site outside any loop with a single in-scope caller chain; (R6) creation-triggering sites are a frozen set and the eager ones are guarded by a failed LazyInit type test; (R7) the before-instantiation short-circuit is closed. Decides stage order on all paths of the container's code; dependency edges the container cannot see are out of scope."
+	r.Explanation = "C05 lifecycle: call sites are classified by the life-cycle events they can trigger (event reach summaries over in-scope static callees and literals; recursion into the cache accessor is the opaque event DEP) and stage order is decided by dominance between classified sites (R1a properties/configuration before dependency resolution and injection; R1b populate before initialize; R2 success only after both), and the initialization function - whatever helpers it is split into - by a decision table over processor lists x component class x callback outcomes (R1c before-init chain, AfterPropertiesSet, Init, after-init chain in that order, each once and only after everything before it succeeded; R1d init methods on the before-init result; R2 veto / result; R3 errors end everything); (R4) each stage is a single site outside any loop with a single in-scope caller chain; (R6) creation-triggering sites are a frozen set and the eager ones are guarded by a failed LazyInit type test; (R7) the before-instantiation short-circuit is closed. Decides stage order on all paths of the container's code; dependency edges the container cannot see are out of scope."
 	r.Assumptions = []string{"once per name follows from C01.R3 + C04.A3", "user post-processors do not call back into the factory for the component being created"}
 	l := findLifecycle(c, r, "C05.R0")
 	if l == nil {
 		return
 	}
 	ev := l.ev
-	r.Count("role_functions", 6)
+	r.Count("role_functions", 5+len(l.injectors))
 
-	// ---- R1(a) Populator
+	// ---- R1(a) Populator: property post-processing before any dependency resolution / injection
 	pop := l.populator
-	props := oneSite(r, "C05.R1a", "props-site@"+core.FnName(pop), "site reaching PostProcessProperties", ev.SitesReaching(pop, evProps), c, pop)
-	var deps, injects []*ssa.Call
+	var propsSites, workSites []*ssa.Call
 	for _, ci := range core.Calls(pop) {
 		call, ok := ci.(*ssa.Call)
 		if !ok {
 			continue
 		}
-		switch ev.Direct(call.Common()) {
-		case evDep:
-			deps = append(deps, call)
-		case evInject:
-			injects = append(injects, call)
+		rs := ev.SiteReach(call)
+		switch {
+		case rs.has(evDep) || rs.has(evInject):
+			workSites = append(workSites, call)
+		case rs.has(evProps):
+			propsSites = append(propsSites, call)
 		}
 	}
-	r.Floor("C05.R1a", "dependency-resolution sites in the populator", len(deps), 1)
-	r.Floor("C05.R1a", "Inject sites in the populator", len(injects), 1)
+	props := oneSite(r, "C05.R1a", "props-site@"+core.FnName(pop), "site reaching PostProcessProperties", propsSites, c, pop)
+	r.Floor("C05.R1a", "dependency-resolution / injection sites in the populator", len(workSites), 1)
 	if props != nil {
-		for _, d := range append(append([]*ssa.Call(nil), deps...), injects...) {
-			r.Check(core.OnNilErrEdge(props, d), "C05.R1a", "props-before-"+ev.Direct(d.Common())+"@"+core.FnName(pop), c.Pos(d.Pos()),
+		for _, d := range workSites {
+			r.Check(core.OnNilErrEdge(props, d), "C05.R1a", "props-before-dependencies@"+core.FnName(pop), c.Pos(d.Pos()),
 				"property post-processing (configuration values, candidate selection) succeeded before any dependency is resolved or injected")
 		}
 	}
-	for _, inj := range injects {
-		// every dependency of this injection is resolved before it: all DEP sites that feed it dominate it on their nil-error edge
-		okAll := len(deps) > 0
-		for _, d := range deps {
-			feeds := false
-			for _, o := range core.Origins(inj.Common().Args[1], nil) {
-				if o == core.ResultValue(d, 0) {
-					feeds = true
+	for _, inj := range l.injectors {
+		var deps, injects []*ssa.Call
+		for _, ci := range core.Calls(inj) {
+			if call, ok := ci.(*ssa.Call); ok {
+				switch ev.Direct(call.Common()) {
+				case evDep:
+					deps = append(deps, call)
+				case evInject:
+					injects = append(injects, call)
 				}
 			}
-			if !feeds {
-				okAll = false
-			}
 		}
-		r.Check(okAll, "C05.R1a", "deps-before-inject@"+core.FnName(pop), c.Pos(inj.Pos()), "the injected list is built only from results of the cache accessor resolved in the same function")
+		for _, is := range injects {
+			okAll := len(deps) > 0
+			for _, d := range deps {
+				feeds := false
+				for _, o := range core.Origins(is.Common().Args[1], nil) {
+					if o == core.ResultValue(d, 0) {
+						feeds = true
+					}
+				}
+				if !feeds || !core.Dominates(d, is) && !core.BlockReaches(d.Block(), is.Block()) {
+					okAll = false
+				}
+			}
+			r.Check(okAll, "C05.R1a", "deps-before-inject@"+core.FnName(inj), c.Pos(is.Pos()), "the injected list is built only from results of the cache accessor resolved earlier in the same function")
+		}
 	}
 
 	// ---- R1(b) EarlyExposer
 	ex := l.exposer
-	popSite := oneSite(r, "C05.R1b", "populate-site@"+core.FnName(ex), "site reaching PROPS+INJECT", ev.SitesReaching(ex, evProps, evInject), c, ex)
-	var initSites []*ssa.Call
-	for _, s := range ev.SitesReaching(ex, evBeforeInit) {
-		if ev.SiteReach(s).has(evAfterInit) {
-			initSites = append(initSites, s)
-		}
-	}
-	initSite := oneSite(r, "C05.R1b", "init-site@"+core.FnName(ex), "site reaching BEFORE_INIT+AFTER_INIT", initSites, c, ex)
-	if popSite != nil && initSite != nil {
-		r.Check(core.OnNilErrEdge(popSite, initSite), "C05.R1b", "populate-before-initialize@"+core.FnName(ex), c.Pos(initSite.Pos()),
-			"initialization is dominated by the nil-error edge of population: all injection points and configuration values are set first")
-		r.Check(core.IsCallTo(initSite.Common(), l.initFn) && core.IsCallTo(popSite.Common(), pop), "C05.R1b", "sites-are-roles@"+core.FnName(ex), c.Pos(initSite.Pos()),
-			"the classified sites call the Populator and the InitFn directly")
+	popSite, initSite := l.popSite, l.initSite
+	r.Check(core.OnNilErrEdge(popSite, initSite), "C05.R1b", "populate-before-initialize@"+core.FnName(ex), c.Pos(initSite.Pos()),
+		"initialization is dominated by the nil-error edge of population: all injection points and configuration values are set first")
+
+	// ---- R1(c), R1(d), R3 and the initialization half of R2: decision table of the initialization function
+	maxProcs := 2
+	irs, iruns, iund := initTable(c, l.initFn, maxProcs)
+	r.Count("init_table_runs", iruns)
+	icons := "init-table@" + core.FnName(l.initFn)
+	if iund != "" {
+		r.Undecided("C05.R1c", icons, c.FnPos(l.initFn), "abstract interpretation left the model: "+iund)
+	} else {
+		smallModelCheck(c, r, "C05.R1c", icons, l.initFn, int64(maxProcs))
+		irs.report(c, r, l.initFn, func(row string) string {
+			switch row {
+			case "sequence":
+				return "C05.R1c"
+			case "init-target":
+				return "C05.R1d"
+			case "veto", "result":
+				return "C05.R2"
+			case "error":
+				return "C05.R3"
+			}
+			return ""
+		}, icons, initRows)
 	}
 
-	// ---- R1(c) InitFn
-	inf := l.initFn
-	bi := oneSite(r, "C05.R1c", "before-init-site@"+core.FnName(inf), "site reaching BEFORE_INIT", ev.SitesReaching(inf, evBeforeInit), c, inf)
-	var imSites []*ssa.Call
-	for _, ci := range core.Calls(inf) {
-		if call, ok := ci.(*ssa.Call); ok && core.IsCallTo(call.Common(), l.initializer) {
-			imSites = append(imSites, call)
-		}
-	}
-	im := oneSite(r, "C05.R1c", "initializer-site@"+core.FnName(inf), "call of the Initializer", imSites, c, inf)
-	ai := oneSite(r, "C05.R1c", "after-init-site@"+core.FnName(inf), "site reaching AFTER_INIT", ev.SitesReaching(inf, evAfterInit), c, inf)
-	if bi != nil && im != nil && ai != nil {
-		r.Check(core.OnNilErrEdge(bi, im), "C05.R1c", "before-init<init-methods@"+core.FnName(inf), c.Pos(im.Pos()), "init methods run only after the before-initialization callbacks succeeded")
-		r.Check(core.OnNilErrEdge(im, ai), "C05.R1c", "init-methods<after-init@"+core.FnName(inf), c.Pos(ai.Pos()), "after-initialization callbacks run only after the init methods succeeded")
-		r.Check(!core.InLoop(bi.Block()) && !core.InLoop(im.Block()) && !core.InLoop(ai.Block()), "C05.R1c", "no-loop@"+core.FnName(inf), c.Pos(im.Pos()), "the three stage sites are outside any loop")
-		// the component handed to the init methods is the before-init result
-		arg := core.Norm(im.Common().Args[len(im.Common().Args)-1])
-		r.Check(arg == core.ResultValue(bi, 0), "C05.R1c", "init-on-before-init-result@"+core.FnName(inf), c.Pos(im.Pos()), "the init methods run on the instance returned by the before-initialization callbacks")
-	}
-
-	// ---- R1(d), R3 Initializer
-	ini := l.initializer
-	var aps, init *ssa.Call
-	for _, ci := range core.Calls(ini) {
-		call, ok := ci.(*ssa.Call)
-		if !ok {
+	// ---- R2 must-stages in the creator
+	for _, ret := range core.Returns(ex) {
+		if core.ClassifyReturn(ret) == core.RetError {
 			continue
 		}
-		if core.IsInvoke(call.Common(), ro.APS) {
-			if aps != nil {
-				r.Fail("C05.R4", "aps-single-site@"+core.FnName(ini), c.Pos(call.Pos()), "AfterPropertiesSet is invoked at more than one site")
-			}
-			aps = call
-		}
-		if core.IsInvoke(call.Common(), ro.Init) {
-			if init != nil {
-				r.Fail("C05.R4", "init-single-site@"+core.FnName(ini), c.Pos(call.Pos()), "Init is invoked at more than one site")
-			}
-			init = call
-		}
-	}
-	if aps == nil || init == nil {
-		r.Undecided("C05.R1d", "aps/init@"+core.FnName(ini), c.FnPos(ini), "the Initializer does not invoke both AfterPropertiesSet and Init synchronously")
-	} else {
-		apsTA, apsOK := assertOf(aps.Common().Value)
-		initTA, initOK := assertOf(init.Common().Value)
-		cons := "@" + core.FnName(ini)
-		if apsTA == nil || initTA == nil || apsOK == nil || initOK == nil {
-			r.Undecided("C05.R1d", "assertions"+cons, c.FnPos(ini), "init callbacks are not invoked on comma-ok type assertions of the component")
-		} else {
-			// must-pass-through: INIT unreachable when avoiding the APS block and the APS-assertion's false edge
-			cut := map[[2]*ssa.BasicBlock]bool{}
-			for _, rf := range *apsOK.Referrers() {
-				if iff, ok := rf.(*ssa.If); ok {
-					cut[[2]*ssa.BasicBlock{iff.Block(), iff.Block().Succs[1]}] = true
-				}
-			}
-			passes := !reachableAvoiding(ini, init.Block(), map[*ssa.BasicBlock]bool{aps.Block(): true}, cut)
-			r.Check(passes && len(cut) > 0, "C05.R1d", "aps-before-init"+cons, c.Pos(init.Pos()), "every path to Init() has passed AfterPropertiesSet() or the failed type test for it")
-			r.Check(!core.BlockReaches(init.Block(), aps.Block()), "C05.R1d", "no-init-then-aps"+cons, c.Pos(aps.Pos()), "no path leads from Init() back to AfterPropertiesSet()")
-			// Init only on the nil-error edge of APS when APS ran
-			okEdge := true
-			for _, t := range core.NilTests(core.ErrValue(aps)) {
-				if core.ReachableFrom(t.NonNil, nil)[init.Block()] {
-					okEdge = false
-				}
-			}
-			ua := core.ClassifyErr(aps)
-			r.Check(okEdge && (ua.Class == core.ErrTested || ua.Class == core.ErrReturned), "C05.R1d", "init-after-aps-success"+cons, c.Pos(init.Pos()), "a failing AfterPropertiesSet() prevents Init() and becomes a non-nil return")
-			reachAfter := false
-			for _, t := range core.NilTests(core.ErrValue(aps)) {
-				if core.ReachableFrom(t.Nil, nil)[init.Block()] {
-					reachAfter = true
-				}
-			}
-			r.Check(reachAfter, "C05.R3", "init-not-excluded-by-aps"+cons, c.Pos(init.Pos()), "Init() is still reached after a successful AfterPropertiesSet() (the two callbacks are independent, not else-if)")
-			ui := core.ClassifyErr(init)
-			r.Check(ui.Class == core.ErrTested || ui.Class == core.ErrReturned, "C05.R1d", "init-error"+cons, c.Pos(init.Pos()), "a failing Init() becomes a non-nil return")
-			// both on the same component value
-			r.Check(core.Norm(apsTA.X) == core.Norm(initTA.X), "C05.R1d", "same-component"+cons, c.Pos(init.Pos()), "both callbacks are looked up on the same component value")
-			// R3 guards
-			for _, g := range []struct {
-				name string
-				site *ssa.Call
-				ok   ssa.Value
-			}{{"aps", aps, apsOK}, {"init", init, initOK}} {
-				bad := ""
-				for _, cd := range c.ControlDeps(g.site.Block()) {
-					switch {
-					case cd.If.Cond == g.ok && cd.Branch:
-					case g.name == "init" && cd.If.Cond == apsOK:
-						// reached through the AfterPropertiesSet error test, or around it when the component has none
-					case isErrNilEdge(cd):
-					default:
-						bad = "extra condition at " + c.Pos(cd.If.Cond.Pos())
-					}
-				}
-				r.Check(bad == "", "C05.R3", g.name+"-guards"+cons, c.Pos(g.site.Pos()), "the callback is conditional only on its own type assertion and on earlier error tests "+bad)
-				r.Check(!core.InLoop(g.site.Block()), "C05.R4", g.name+"-not-in-loop"+cons, c.Pos(g.site.Pos()), "the callback site is outside any loop")
-			}
-		}
+		r.Check(core.OnNilErrEdge(popSite, ret) && core.OnNilErrEdge(initSite, ret), "C05.R2", "success-after-populate+initialize@"+core.FnName(ex), c.Pos(ret.Pos()),
+			"a component is handed back as created only after population and initialization both succeeded")
 	}
 
-	// ---- R2 must-stages
-	if popSite != nil && initSite != nil {
-		for _, ret := range core.Returns(ex) {
-			if core.ClassifyReturn(ret) == core.RetError {
-				continue
-			}
-			r.Check(core.OnNilErrEdge(popSite, ret) && core.OnNilErrEdge(initSite, ret), "C05.R2", "success-after-populate+initialize@"+core.FnName(ex), c.Pos(ret.Pos()),
-				"a component is handed back as created only after population and initialization both succeeded")
+	// ---- R4 single sites, single call chain
+	for _, x := range []struct {
+		name string
+		m    *types.Func
+	}{{"AfterPropertiesSet", ro.APS}, {"Init", ro.Init}} {
+		sites := c.CallSites(func(com *ssa.CallCommon) bool { return core.IsInvoke(com, x.m) })
+		cons := "single-site:" + x.name
+		if len(sites) != 1 {
+			r.Fail("C05.R4", cons, "", fmt.Sprintf("%s is invoked at %d sites in scope (want exactly one)", x.name, len(sites)))
+			continue
 		}
+		_, isCall := sites[0].(*ssa.Call)
+		r.Check(isCall && !core.InLoop(sites[0].Block()), "C05.R4", cons, c.Pos(sites[0].Pos()), x.name+" is invoked synchronously at a single site outside any loop")
 	}
-	if bi != nil && im != nil && ai != nil {
-		for _, ret := range core.Returns(inf) {
-			if core.ClassifyReturn(ret) == core.RetError {
-				continue
-			}
-			if core.OnNilEdge(core.ResultValue(bi, 0), ret) {
-				r.Hold("C05.R2", "before-init-veto@"+core.FnName(inf), c.Pos(ret.Pos()), "a before-initialization callback returning nil ends initialization (Spring short-circuit); the component is returned unchanged")
-				continue
-			}
-			r.Check(core.OnNilErrEdge(im, ret) && core.OnNilErrEdge(ai, ret), "C05.R2", "success-after-all-stages@"+core.FnName(inf), c.Pos(ret.Pos()),
-				"initialization reports success only after the init methods and the after-initialization callbacks succeeded")
-		}
-	}
-
-	// ---- R4 single call chain
 	for _, x := range []struct {
 		what string
 		fn   *ssa.Function
 		in   *ssa.Function
-	}{{"Initializer", ini, inf}, {"InitFn", inf, ex}, {"Populator", pop, ex}, {"EarlyExposer", ex, nil}} {
+	}{{"InitFn", l.initFn, ex}, {"Populator", pop, ex}, {"EarlyExposer", ex, nil}} {
 		var sites []ssa.CallInstruction
 		for _, fn := range c.Scope {
 			sites = append(sites, core.CallsMatching(fn, func(com *ssa.CallCommon) bool { return core.IsCallTo(com, x.fn) })...)
@@ -399,6 +341,9 @@ func c05Lazy(c *core.Ctx, r *core.Report, l *lifecycleRoles) {
 	ev := l.ev
 	fimpls := c.Implementors(c.Iface("container", "Factory"))
 	allowed := map[*ssa.Function]string{l.populator: "populator (dependency-driven)"}
+	for _, inj := range l.injectors {
+		allowed[inj] = "populator (dependency-driven)"
+	}
 	var refresh *ssa.Function
 	for _, T := range fimpls {
 		if m := c.DeclaredMethod(T, "Refresh"); m != nil {
